@@ -26,6 +26,7 @@ RULE = ("three seeded families.  cfg: the eight sampled configuration classes bu
         "sel: all concrete SelectionProtocol classes found at run time (57), each with an explicit optimiser (harness exact / prescribed-"
         "decision / front plug-in, the repo's sorting optimiser, or a GA with ngen<=15, pop<=24), populations with shuffled names and "
         "ungrouped families, gmat = the pgmat object | an equal but distinct phased object | unphased counts, 1-3 traits, ties and duplicated individuals, 1-2 objectives, "
+        "objective weights of mixed sign and non-unit magnitude whenever there are 2 objectives (all encodings), "
         "ndset weights of both signs with four harness transformations or the library default.  equi: subset-encoded protocols run on a "
         "population, on a consistently permuted copy and on a renamed copy with exact optimisers.  Non-trivial: more than one slot or "
         "more than one candidate; distinct = digest of the generated inputs.")
@@ -604,10 +605,15 @@ def case_sel(ctx, c):
         algo = R.plugin(enc, make_chooser(g, enc, kind, k, decisions))
     idle = R.plugin(enc, make_chooser(g, enc, "random", k, []))
     wsign = -1.0 if g.random() < 0.15 else 1.0
+    objwt = numpy.repeat(wsign, nobj)
+    if nobj > 1:      # every encoding family: mixed signs and non-unit magnitudes (the solution's objectives are the weighted ones)
+        objwt = g.choice([1.0, -1.0, 2.5, -0.5, 0.25, -3.0], nobj)
+        if g.random() < 0.5 and (numpy.all(objwt > 0) or numpy.all(objwt < 0)):
+            objwt[int(g.integers(nobj))] *= -1.0
     trans = R.LinTrans(nobj, int(g.integers(2 ** 31)), mode=str(g.choice(["pick", "index"])))
     ndname = str(g.choice(list(R.NDTRANS) + ["library default"]))
     ndwt = float(g.choice([1.0, -1.0, 2.5, -0.5]))
-    pk = dict(ncross=ncross, nparent=nparent, nmating=nmating, nprogeny=nprogeny, nobj=nobj, obj_wt=numpy.repeat(wsign, nobj), obj_trans=trans,
+    pk = dict(ncross=ncross, nparent=nparent, nmating=nmating, nprogeny=nprogeny, nobj=nobj, obj_wt=objwt.copy(), obj_trans=trans,
               ndset_wt=ndwt, soalgo=(algo if nobj == 1 else idle), moalgo=(algo if nobj > 1 else idle))
     if ndname != "library default":
         pk["ndset_trans"] = R.NDTRANS[ndname]; pk["ndset_trans_kwargs"] = {}
@@ -620,7 +626,7 @@ def case_sel(ctx, c):
     ctx.case("sel:%s/%s/%s" % (name, optcls, "2 objectives" if nobj > 1 else "1 objective"), name, A["mat"], A["raw"], A["u"], ncross, nparent,
              seed, kind, trivial=(k < 2 and n < 3))
     w = {"protocol": name, "kwargs": show_kwargs(kw), "ncross": ncross, "nparent": nparent, "nmating": nmating, "nprogeny": nprogeny, "ntaxa": n,
-         "nobj": nobj, "obj_wt": wsign, "optimiser": optcls, "gmat": {True: "unphased", None: "phased copy", False: "same object as pgmat"}[unphased], "raw_bv": A["raw"], "seed": seed,
+         "nobj": nobj, "obj_wt": objwt, "optimiser": optcls, "gmat": {True: "unphased", None: "phased copy", False: "same object as pgmat"}[unphased], "raw_bv": A["raw"], "seed": seed,
          "ndset": [ndwt, ndname]}
     if c % 173 == 0:
         ctx.sample({"family": "sel", "protocol": name, "optimiser": optcls, "ncross": ncross, "nparent": nparent, "ntaxa": n, "nmarkers": m,
@@ -686,8 +692,10 @@ def case_sel(ctx, c):
         best = score.max()
         hits = [i for i in range(len(SD)) if numpy.array_equal(SD[i], decn)]
         tcls = "%s preference, weight %s" % ("library default" if ndname == "library default" else "harness", "> 0" if ndwt > 0 else "< 0")
+        wcls = icls + ("/negative objective weight" if numpy.any(objwt < 0) else "")
+        ctx.sumnote("fronts under mixed-sign objective weights", int(numpy.any(objwt < 0) and numpy.any(objwt > 0)))
         ctx.check("C07.mo", any(score[i] == best for i in hits), ssite, "decision maximises ndset_wt*ndset_trans over the returned front",
-                  icls, witness=dict(w, preference=tcls, front_obj=F, front_decn=SD, score=score, chosen=decn, chosen_index=hits), coords=coords)
+                  wcls, witness=dict(w, preference=tcls, front_obj=F, front_decn=SD, score=score, chosen=decn, chosen_index=hits), coords=coords)
         ctx.sumnote("fronts with more than one point", int(len(SD) > 1))
         ctx.sumnote("fronts where argmax != argmin", int(score.max() != score.min()))
         dom = set(range(len(F))) - set(R.nondominated(F))
